@@ -807,7 +807,8 @@ CELER_FUNCTION void OrangeTrackView::set_dir(Real3 const& newdir)
         // up to check
         auto apply_transform = TransformVisitor{params_};
         auto rotate_up = [&normal](auto&& t) { normal = t.rotate_up(normal); };
-        for (auto level : range<int>(this->level().unchecked_get()).step(-1))
+        for (auto level :
+             range<int>(this->surface_level().unchecked_get()).step(-1))
         {
             apply_transform(rotate_up, this->get_transform(LevelId(level)));
         }
